@@ -54,13 +54,13 @@ def cases(tier, seed):
     b = BOUNDS[tier]
     for field, ops, core in (("list", LIST_OPS, CORE_LIST), ("set", SET_OPS, CORE_SET)):
         for init in INIT:
-            for how in ("append", "assign"):
-                if how == "assign" and not init:
+            for how in ("append", "assign", "ctor", "ctor_shared"):
+                if how != "append" and not init:
                     continue
                 for k in range(1, b["seq_len"] + 1):
                     for seq in itertools.product(ops, repeat=k):
                         out.append((field, init, how, seq))
-                if "seq_len_core_ops" in b:
+                if "seq_len_core_ops" in b and how in ("append", "assign"):
                     k = b["seq_len_core_ops"]
                     for seq in itertools.product(core, repeat=k):
                         out.append((field, init, how, seq))
@@ -95,7 +95,19 @@ class World:
             self.fname = "members"
         self.other = [O.VCompany("bystander"), O.VPerson("bystander_p")]
         vals = [self.univ[i] for i in init]
-        if how == "assign":
+        if how in ("ctor", "ctor_shared"):
+            # the first write of the field happens in the constructor: with a plain collection, or with the managed
+            # field of ANOTHER instance (dataclasses.replace(obj, name=...) does exactly that)
+            if how == "ctor":
+                value = list(vals) if field == "list" else set(vals)
+            else:
+                self.donor = O.VPerson("donor") if field == "list" else O.VCompany("donor")
+                for v in vals:
+                    (self.donor.member_of.append if field == "list" else self.donor.members.add)(v)
+                value = getattr(self.donor, self.fname)
+                self.other.append(self.donor)
+            self.owner = (O.VPerson if field == "list" else O.VCompany)("owner", **{self.fname: value})
+        elif how == "assign":
             setattr(self.owner, self.fname, list(vals) if field == "list" else set(vals))
         else:
             for v in vals:
